@@ -250,6 +250,7 @@ impl Reader {
                     .ok_or(format::Error::TickOverflow)?
                     .checked_add(dt)
                     .ok_or(format::Error::TickOverflow)?;
+                self.prev_player_cid = None;
                 if self.in_tick {
                     self.in_tick = false;
                     Item::TickEnd(old_tick)
